@@ -306,6 +306,31 @@ def legacy_service_reachability(ctx, program, rid):
               msg=f"legacy @service: trigger_init returns on {len(leaks_ret)} path(s) with a service registered but the function neither registered with its global context nor rolled back "
               f"(e.g. @service combined with @state_active/@time_active/@task_unique and no trigger): GlobalContext.stop() never reaches trigger_stop(), the HA service handler keeps the "
               f"function alive, so the service outlives its file", key="service registered, function not handed to context (return)", node=program.func(uid), rel="eval.py")
+    # concrete alias lists: every registration made by trigger_init is matched by one removal in trigger_stop (the count is per registration)
+    glob = {"TRIG_SERV_DECORATORS": ListV(tuple(Const(x) for x in ("service", "state_trigger", "event_trigger", "time_trigger", "mqtt_trigger", "webhook_trigger", "state_active",
+                                                                   "time_active", "task_unique")), "set"),
+            "DOMAIN": Const("pyscript"), "SERVICE_RELOAD": Const("reload"), "SERVICE_JUPYTER_KERNEL_START": Const("jupyter_kernel_start")}
+    for decs in ([["p.a"]], [["p.a", "p.b"]], [["p.a", "p.a"]], [["p.a"], ["p.a"]], [["p.a"], ["p.b"]]):
+        pol2 = FlowPolicy(program, events=["Function.service_register", "Function.service_remove"], may_raise_all=False, cancel=False, globals_=glob,
+                          summaries={"trig_ctx.get_name": lambda i, n, a, k, c, o: [(c, Const("file.x"))], "self.get_positional_args": lambda i, n, a, k, c, o: [(c, ListV((), "list"))]})
+        pol2.loop_unroll = 2
+        dl = ListV(tuple(ListV((Const("service"), ListV(tuple(Const(n) for n in names), "list"), Const(None)), "list") for names in decs), "list")
+        heap = {"self.trigger_service": ListV((), "set"), "self.trigger": ListV((), "list"), "self.decorators": dl, "self.doc_string": Const("doc"), "self.global_ctx": ObjV("g", "GlobalContext")}
+        o1 = run_flow(program, uid, pol2, args={"self": ObjV("self", "EvalFunc"), "trig_ctx": ObjV("g", "GlobalContext"), "func_name": Const("f")}, heap=heap)
+        bad = None
+        ex1 = exits(o1)
+        for kind, c, desc in ex1:
+            if kind != "return":
+                bad = f"trigger_init leaves with {desc}"
+                continue
+            reg = sorted(e[2][2].v for e in c.trace if e[0] == "call" and e[1] == "Function.service_register" and len(e[2]) > 2 and isinstance(e[2][2], Const))
+            o2 = run_flow(program, "eval.py::EvalFunc.trigger_stop", pol2, args={"self": ObjV("self", "EvalFunc")}, heap=dict(c.heap))
+            for k2, c2, d2 in exits(o2):
+                rem = sorted(e[2][2].v for e in c2.trace if e[0] == "call" and e[1] == "Function.service_remove" and len(e[2]) > 2 and isinstance(e[2][2], Const))
+                if rem != reg:
+                    bad = f"trigger_init registers {reg} but trigger_stop removes {rem}: the service's reference count never returns to zero, it stays registered after the function is gone"
+        ctx.check(bool(ex1) and bad is None, rid, uid, f"@service{tuple(tuple(d) for d in decs)}: registrations == removals",
+                  msg=f"legacy @service with names {decs}: {bad or 'no exit'}", key=f"alias list {decs}", node=program.func(uid), rel="eval.py")
     ctx.check(not leaks_exc, rid, uid, "failing paths with a registered service are rolled back",
               msg=f"legacy @service: trigger_init can raise on {len(leaks_exc)} path(s) after a service was registered (e.g. {sorted(set(leaks_exc))[:3]}) and the caller only logs the exception: "
               f"the registered alias is never removed (a refused later alias, an invalid later decorator)", key="service registered, definition failed (raise)",
